@@ -31,7 +31,50 @@ func (c hashComparable) Compare(i, j uint32) verifhooks.CompareResult {
 }
 func (c hashComparable) Hash(i uint32, seed uint64) uint64 { return c.hashes[i] }
 
+// big: one GroupBy over 2k rows with k > 32768 distinct keys, every key occurring once in each half, hashes spread over
+// all 64 bits: the table grows past 2^16 and 2^17 slots while holding entries, and the second half must find them again.
+//   GB <n> <k> <mul> G <g> {<len> <row…>}*      key of row i = i mod k, hash = key * mul
+func grpBig(r *tx.Rng, w *tx.W) {
+	k := 33000 + r.Intn(30000)
+	n := 2 * k
+	mul := uint64(0x9E3779B97F4A7C15)
+	if r.Bool() {
+		mul = uint64(r.U64() | 1)
+	}
+	keys := make([]int, n)
+	hashes := make([]uint64, n)
+	for i := range keys {
+		keys[i] = i % k
+		hashes[i] = uint64(keys[i]) * mul
+	}
+	toks := []string{"GB", tx.Int(n), tx.Int(k), tx.U64(mul)}
+	pmsg := ""
+	func() {
+		defer func() {
+			if p := recover(); p != nil {
+				pmsg = fmt.Sprint(p)
+			}
+		}()
+		groups, _ := verifhooks.GroupBy(ascending(n), []verifhooks.Comparable{hashComparable{keys, hashes}})
+		toks = append(toks, "G", tx.Int(len(groups)))
+		for _, g := range groups {
+			toks = append(toks, tx.Int(len(g)))
+			for _, x := range g {
+				toks = append(toks, tx.Int(int(x)))
+			}
+		}
+	}()
+	if pmsg != "" {
+		toks = append(toks, "P", tx.HexS(pmsg))
+	}
+	w.Line(toks...)
+}
+
 func grpAdvSection(r *tx.Rng, w *tx.W, size int, opt map[string]string) {
+	if opt["big"] != "" {
+		grpBig(r, w)
+		return
+	}
 	ns := []int{0, 1, 2, 3, 5, 8, 9, 16, 17, 31, 32, 33, 40, 64, 100, 130}
 	if size >= 2 {
 		ns = append(ns, 300, 1000, 3000)
